@@ -576,3 +576,7 @@ def run_multiprocess(case):  # noqa: C901
     finally:
         iotrace.uninstall()
         common.rmtree(base)
+
+
+for _fn in (run_depth1, run_depth2, run_random, run_multiprocess):
+    _fn.case_timeout = 3000  # generous per-case wall-clock watchdog (inconclusive when it fires, never a verdict)
